@@ -110,6 +110,8 @@ def oracle(case):
     if k == 'hist':
         return _hist_oracle(case)
     r = S.run_real(case)
+    if r.get('hung'):
+        return 'worker-blocked-in-handler'
     if r['dead'] is not None:
         return 'run-once-raised-' + exc_name(r['dead'])
     # progress: no call that would block the worker (recv / send on a socket left in blocking or timeout
@@ -188,6 +190,12 @@ def corpus():
     for k, role in enumerate(S.EXACT_ROLES):
         cs.append({'kind': 'real', 'conns': [_canary(role, 0), _canary(S.CANARY_ROLES[k % 6], 1)],
                    'sched': [0, 1, 0, 1, 0, 1, 0, 1, 0, 0]})
+    # upgrade offers (websocket / h2c) on the first or on a follow-up request, then more client bytes;
+    # real connects that are refused; both next to a canary
+    for k, role in enumerate(S.UPGRADE_ROLES + S.REALCONN_ROLES):
+        cs.append({'kind': 'real', 'conns': [{'role': role, 'i': 0, 'adv': 1, 'kind': 'role', 'steps': S.good_script(role, 0)},
+                                             _canary(S.CANARY_ROLES[k % 6], 1)],
+                   'sched': [0, 1, 0, 1, 0, 1, 0, 1, 0, 0, 0, 0, 0]})
     return cs
 
 
